@@ -91,6 +91,8 @@ type tr struct {
 	errFns     map[string]bool       // functions of the root package translated so far
 	errArgs    map[types.Object]bool // variables currently holding an `error` handed in by the caller (`ErrArg`)
 	writerVars map[types.Object]bool // parameters of type *buffer.Writer: the world's writer
+	// handshake.go start-up mode (see startup.go)
+	su *suState
 }
 
 type loopCtx struct {
@@ -212,6 +214,8 @@ func (t *tr) leanType(ty types.Type) string {
 		return t.copyType(ty)
 	case t.errm && t.errType(ty) != "":
 		return t.errType(ty)
+	case t.su != nil && t.suType(ty) != "":
+		return t.suType(ty)
 	case t.isByteSlice(ty):
 		if t.recvKind == "Reader" && !t.copy {
 			return "Sl"
@@ -536,6 +540,9 @@ func (t *tr) wrap(kind, e string) string {
 // typed: expression in a context that wants type `want` (handles nil and numeric literals)
 func (t *tr) typed(e ast.Expr, want string, p *pre) string {
 	if idt, ok := e.(*ast.Ident); ok && idt.Name == "nil" {
+		if t.su != nil && t.suNil(want) != "" {
+			return t.suNil(want)
+		}
 		switch want {
 		case "Option Err", "Option CErr":
 			return "none"
@@ -676,6 +683,11 @@ func (t *tr) callMulti(c *ast.CallExpr, p *pre) []string {
 	}
 	if t.errm {
 		if rs, ok := t.errCall(c, fun, p); ok {
+			return rs
+		}
+	}
+	if t.su != nil {
+		if rs, ok := t.suCall(c, fun, p); ok {
 			return rs
 		}
 	}
@@ -935,6 +947,9 @@ func (t *tr) stmts(list []ast.Stmt, depth int, out *[]string, k func(depth int, 
 	}
 	s, rest := list[0], list[1:]
 	next := func(d int, o *[]string) { t.stmts(rest, d, o, k) }
+	if t.su != nil && t.suStmt(s, depth, out, next) {
+		return
+	}
 	switch s := s.(type) {
 	case *ast.BlockStmt:
 		t.stmts(append(append([]ast.Stmt{}, s.List...), rest...), depth, out, k)
@@ -1415,12 +1430,15 @@ func main() {
 		fmt.Print(translateWriter(root, bt))
 	case "cache":
 		fmt.Print(translateCache(root))
+	case "startup":
+		fmt.Print(translateStartup(root, bt))
 	case "both":
 		writeIfChanged(filepath.Join(dir, "Trans.lean"), trans)
 		writeIfChanged(filepath.Join(dir, "TransCopy.lean"), translateCopy(root, bt))
 		writeIfChanged(filepath.Join(dir, "TransError.lean"), translateError(root, bt))
 		writeIfChanged(filepath.Join(dir, "TransWriter.lean"), translateWriter(root, bt))
 		writeIfChanged(filepath.Join(dir, "TransCache.lean"), translateCache(root))
+		writeIfChanged(filepath.Join(dir, "TransStartup.lean"), translateStartup(root, bt))
 	}
 }
 
